@@ -342,26 +342,25 @@ Fixpoint mi (o : op) (path : list nat) : nat -> mstate -> LS :=
                                        end)
                  end) os 0 p s)
   | ORepeat o' mn mx greedy => fun p s =>
-      if Nat.ltb n p then LPanic 9      (* search.len() - position underflows *)
+      (* search.len().saturating_sub(position) + 1: a precondition may be probed beyond the input *)
+      let bound := cap mx (n - p + 1) in
+      let mnc := cap mn (bound + 2) in
+      if greedy then
+        let '(z, s0) := if N.eqb mn 0 then (let '(d, s') := is_dup path p s in
+                                            (if d then 0 else 1, s'))
+                        else (0, s) in
+        (* the zero-repetition entry is an unconsumed iter::once: when it becomes the top of the
+           stack it yields the start position, which re-deepens from there a second time *)
+        let first_pass := explore (mi o' (0 :: path)) mnc bound z (n + 5) 0 true false p s0 in
+        force_progress 0 None
+          (if Nat.eqb z 1
+           then append first_pass (fun s' => explore (mi o' (0 :: path)) mnc bound z (n + 5) 0 false false p s')
+           else first_pass)
       else
-        let bound := cap mx (n - p + 1) in
-        let mnc := cap mn (bound + 2) in
-        if greedy then
-          let '(z, s0) := if N.eqb mn 0 then (let '(d, s') := is_dup path p s in
-                                              (if d then 0 else 1, s'))
-                          else (0, s) in
-          (* the zero-repetition entry is an unconsumed iter::once: when it becomes the top of the
-             stack it yields the start position, which re-deepens from there a second time *)
-          let first_pass := explore (mi o' (0 :: path)) mnc bound z (n + 5) 0 true false p s0 in
-          force_progress 0 None
-            (if Nat.eqb z 1
-             then append first_pass (fun s' => explore (mi o' (0 :: path)) mnc bound z (n + 5) 0 false false p s')
-             else first_pass)
-        else
-          force_progress 0 None
-            (if N.eqb mn 0
-             then LCons p s (fun s' => rexplore (mi o' (0 :: path)) mnc bound (n + 5) 0 true false p s')
-             else rexplore (mi o' (0 :: path)) mnc bound (n + 5) 0 true false p s)
+        force_progress 0 None
+          (if N.eqb mn 0
+           then LCons p s (fun s' => rexplore (mi o' (0 :: path)) mnc bound (n + 5) 0 true false p s')
+           else rexplore (mi o' (0 :: path)) mnc bound (n + 5) 0 true false p s)
   | OGFixed o' mn mx len => fun p s =>
       let leng := N.to_nat len in
       let guard := if N.ltb mx umax
